@@ -54,6 +54,16 @@ CHECKS["C03"] = ("model_checking",
          "Every IL the real compiler prints with exit 0 (corpus, own sources, WfGen.tla grammar programs, Mutate.tla mutants, EmitModel.tla behaviours rendered to C) is parsed strictly and judged in TLC: types before use, data items and sizes/alignments (hook H6-lite / generator table), labels unique, jumps target existing blocks, blocks terminated, temporaries defined once and on every path before use, instruction/call/ret/phi classes, phi sources are predecessors. EmitModel.tla's block/jump bookkeeping is checked over all bounded front-end call sequences and its behaviours replayed (block skeleton compared). Exit 0 with a failed write (full device, closed stdout, file size limit) is a violation.",
          "trusted: ilparse.py (strict parser) and name interning; instruction signature table transcribed from the QBE IL reference and audited on the 159 stored .qbe files; callees not defined in the module unchecked.",
          "DESIGN.md §5 C03")
+CHECKS["C17"] = ("model_checking",
+         "TLA+ declarative plan of cproc(1) (Driver.tla Plans) vs character-level transcription of driver.c's option loop and argv assembly, checked by TLC; every emitted command line replayed into the real driver built against recording stub tools",
+         "TLC checks Impl(words, {}) in Plans(items) on all command lines within bounds (one representative option per routing class x input types, full option alphabet at smaller depth) plus simulated long lines with up to 6 inputs, and emits each with the expected plan (argv per tool, pipeline composition text, files created, exit status); the real driver.c+util.c, compiled next to a config.h produced by the real configure for 4-10 target triples with stub tools, must show exactly that plan.",
+         "trusted: stub semantics (vstub.c) and its model StubEffects; base commands are read back from the generated config.h (configure's lists not judged); where cproc(1) is silent every documented reading is accepted (Plans is a set); -v output not compared.",
+         "DESIGN.md §5 C17")
+CHECKS["C18"] = ("model_checking",
+         "concurrent TLA+ model of driver and stage processes (DriverProc.tla: safety + liveness under fairness) checked by TLC; every failure configuration realised on the real driver with fault-scripted stubs in private /tmp mount namespaces; strace syscall traces validated against the model (Trace_DriverProc.tla)",
+         "All interleavings of the driver (one action per critical section of buildobj/buildexe: mkstemp, spawn, close, wait returning any zombie, kill, unlink, exit) and its children for <= 3-4 stages, <= 2 inputs, every failing stage x failure mode (spawn failure, exit 1 before read / mid write / after, SIGSEGV, SIGKILL) and link failure: non-zero exit, no link, output and temporaries removed, children reaped, no hang (FairSpec => <>Exited). Each configuration is realised on the real driver at two delay scales and observed (status, surviving files, processes, timeout); straced runs must be behaviours of the model.",
+         "trusted: sleep-steered orderings of stub tools; the strace event extraction; liveness assumes a stage that exits 0 has drained its input (the no-drain hang is recorded as an observation). Known: temporaries of earlier inputs / on link spawn failure are leaked.",
+         "DESIGN.md §5 C18")
 NOT_YET = {}
 
 def main():
